@@ -35,6 +35,8 @@ func init() {
 		ruleT3(c, "C11.V18")
 		ruleP4(c, "C11.V19")
 		ruleL1(c, "C11.V20")
+		// a directory scan that does not advance on some path never ends, holding the directory's lock
+		ruleP2(c, "C11.V21")
 	}
 }
 
